@@ -12,6 +12,9 @@ package genbank
 // (c02Record) lays the location out in the feature table of a flat-file
 // record, broken after commas into lines of at most 58 columns as the format
 // has it, and the features Parse returns are asked for their sequences.
+// "Written back": BuildLocationString is judged on the structures assembled
+// directly and on the structures parseLocation built from the text (the tree
+// alone, no cached text), by the strict reader and the evaluator below.
 
 import (
 	"errors"
@@ -388,15 +391,22 @@ func c02GetSequence(parent string, loc poly.Location) string {
 // number of leaves as the text (anything else is a post/eval failure).
 // Problem texts are short unless detail is set.
 func c02ParseCheck(parent string, x *c02Node, detail bool) (evalProblem string, partialEvaluable bool, partialProblem string) {
+	evalProblem, partialEvaluable, partialProblem, _, _ = c02ParseCheckLoc(parent, x, detail)
+	return
+}
+
+// c02ParseCheckLoc is c02ParseCheck that also hands out the structure
+// parseLocation returned (parsed = false when it panicked).
+func c02ParseCheckLoc(parent string, x *c02Node, detail bool) (evalProblem string, partialEvaluable bool, partialProblem string, loc poly.Location, parsed bool) {
 	text := c02Print(x)
 	want, err := c02Eval(parent, text)
 	if err != nil {
-		return "HARNESS: oracle rejects its own text " + text + ": " + err.Error(), false, ""
+		return "HARNESS: oracle rejects its own text " + text + ": " + err.Error(), false, "", loc, false
 	}
-	var loc poly.Location
 	if p := c02Try(func() { loc = parseLocation(text) }); p != "" {
-		return "parseLocation: " + p, false, ""
+		return "parseLocation: " + p, false, "", loc, false
 	}
+	parsed = true
 	wantP := c02Partials(x, nil)
 	gotP := c02LocPartials(loc, nil)
 	if len(gotP) == len(wantP) {
@@ -461,6 +471,81 @@ func c02StructCheck(parent string, x *c02Node) (representable bool, evalProblem,
 		return true, evalProblem, "printed " + c02Clip(text) + " has partial ends " + c02PartialString(gp) + ", structure has " + c02PartialString(wp)
 	}
 	return true, evalProblem, ""
+}
+
+// c02BackCheck judges BuildLocationString/post/insdc on a structure that came
+// out of the parser: loc = parseLocation(c02Print(x)), written back from the
+// structure alone (no cached text is involved: BuildLocationString sees only
+// the tree). The text must be accepted by the strict independent reader and
+// denote the bases and the partial ends of the text that was parsed.
+func c02BackCheck(parent string, x *c02Node, loc poly.Location) string {
+	want, err := c02EvalNode(parent, x)
+	if err != nil {
+		return "HARNESS: " + err.Error()
+	}
+	var text string
+	if p := c02Try(func() { text = BuildLocationString(loc) }); p != "" {
+		return "BuildLocationString of the parsed structure: " + p
+	}
+	back, err := c02Read(text)
+	if err != nil {
+		return "written back as " + c02Clip(text) + ", which is not INSDC syntax: " + err.Error()
+	}
+	gotB, err := c02EvalNode(parent, back)
+	if err != nil {
+		return "written back as " + c02Clip(text) + ", which does not denote bases of the parent: " + err.Error()
+	}
+	if gotB != want {
+		return "written back as " + c02Clip(text) + ", which denotes " + c02Clip(gotB) + "; the text parsed denotes " + c02Clip(want)
+	}
+	if gp, wp := c02Partials(back, nil), c02Partials(x, nil); !c02SamePartials(gp, wp) {
+		return "written back as " + c02Clip(text) + " with partial ends " + c02PartialString(gp) + "; the text parsed has " + c02PartialString(wp)
+	}
+	return ""
+}
+
+// c02ParseBack: parse the text of x, write the structure back, judge the text.
+// "" also when parseLocation panics (that is post/eval's business).
+func c02ParseBack(parent string, x *c02Node) string {
+	var loc poly.Location
+	if p := c02Try(func() { loc = parseLocation(c02Print(x)) }); p != "" {
+		return ""
+	}
+	return c02BackCheck(parent, x, loc)
+}
+
+func c02HasJoinBelow(x *c02Node) bool {
+	for _, k := range x.kids {
+		if k.kind == 'j' || c02HasJoinBelow(k) {
+			return true
+		}
+	}
+	return false
+}
+
+// c02BackShape names a smallest expression whose parsed structure is written
+// back wrongly. Where the printer already fails on the structure assembled
+// directly for the same expression it is the printer's defect and carries the
+// printer's class (c02Shape); otherwise the defect lies in what the parser
+// built, and the class says so: a join with another join among or below its
+// operands is nested-join-written-back, anything else <shape>-written-back.
+func c02BackShape(parent string, x *c02Node, memo map[string]bool) string {
+	k := "prnt" + c02Print(x)
+	printerFails, known := memo[k]
+	if !known {
+		ok, _, buildP := c02StructCheck(parent, x)
+		printerFails = ok && buildP != ""
+		if memo != nil && len(memo) < 50000 {
+			memo[k] = printerFails
+		}
+	}
+	if printerFails {
+		return c02Shape(x)
+	}
+	if x.kind == 'j' && c02HasJoinBelow(x) {
+		return "nested-join-written-back"
+	}
+	return c02Shape(x) + "-written-back"
 }
 
 func c02Clip(s string) string {
@@ -551,12 +636,22 @@ type c02Runs struct {
 // records one failure per class among them. problem(y, detail) is the clause's
 // verdict on a sub-expression.
 func (r *c02Runs) report(v *verifRun, parent string, x *c02Node, memo map[string]bool, problem func(*c02Node, bool) string) {
+	r.reportAs(v, v.Clause[len(v.Clause)-4:], "location=", c02Shape, parent, x, memo, problem)
+}
+
+// reportAs: tag keeps the remembered verdicts of two checks under one clause
+// apart, label introduces the expression in the recorded input, shape names
+// the class of a smallest failing part.
+func (r *c02Runs) reportAs(v *verifRun, tag, label string, shape func(*c02Node) string, parent string, x *c02Node, memo map[string]bool, problem func(*c02Node, bool) string) {
 	mins := c02Minimal(x, func(y *c02Node) bool {
+		if y == x {
+			return true // the caller has just seen x fail (the checks are deterministic)
+		}
 		// verdicts on parts recur from one expression of a job to the next: remember them
-		if memo == nil || y == x {
+		if memo == nil {
 			return problem(y, false) != ""
 		}
-		k := v.Clause[len(v.Clause)-4:] + c02Print(y)
+		k := tag + c02Print(y)
 		if bad, ok := memo[k]; ok {
 			return bad
 		}
@@ -569,7 +664,7 @@ func (r *c02Runs) report(v *verifRun, parent string, x *c02Node, memo map[string
 	full := ""
 	seen := map[string]bool{}
 	for _, m := range mins {
-		class := c02Shape(m)
+		class := shape(m)
 		if seen[class] {
 			continue
 		}
@@ -589,7 +684,7 @@ func (r *c02Runs) report(v *verifRun, parent string, x *c02Node, memo map[string
 		if in != full {
 			p += " (smallest failing part of " + c02Clip(full) + ")"
 		}
-		v.Fail(class, "parent="+c02Clip(parent)+" location="+in, p)
+		v.Fail(class, "parent="+c02Clip(parent)+" "+label+in, p)
 	}
 }
 
@@ -613,7 +708,7 @@ func (r *c02Runs) check(parent string, x *c02Node, memo map[string]bool) {
 	ops := c02Ops(x)
 	marker := c02HasMarker(x)
 
-	evalP, partialOK, partialP := c02ParseCheck(parent, x, false)
+	evalP, partialOK, partialP, parsedLoc, parsed := c02ParseCheckLoc(parent, x, false)
 	r.parseEval.Case(key, ops > 0 || marker || x.kind == 'b')
 	if evalP != "" {
 		r.report(r.parseEval, parent, x, memo, func(y *c02Node, d bool) string { p, _, _ := c02ParseCheck(parent, y, d); return p })
@@ -625,15 +720,25 @@ func (r *c02Runs) check(parent string, x *c02Node, memo map[string]bool) {
 		}
 	}
 
-	if ok, evalS, buildS := c02StructCheck(parent, x); ok {
+	ok, evalS, buildS := c02StructCheck(parent, x)
+	if ok {
 		r.structEval.Case(key, ops > 0)
 		if evalS != "" {
 			r.report(r.structEval, parent, x, memo, func(y *c02Node, d bool) string { _, p, _ := c02StructCheck(parent, y); return p })
 		}
+	}
+	// one case of the printer clause per expression: written back from the
+	// structure assembled directly (where it has one) and from the structure the
+	// parser built from the text (where the parser returns)
+	if ok || parsed {
 		r.build.Case(key, ops > 0 || marker)
-		if buildS != "" {
-			r.report(r.build, parent, x, memo, func(y *c02Node, d bool) string { _, _, p := c02StructCheck(parent, y); return p })
-		}
+	}
+	if ok && buildS != "" {
+		r.report(r.build, parent, x, memo, func(y *c02Node, d bool) string { _, _, p := c02StructCheck(parent, y); return p })
+	}
+	if parsed && c02BackCheck(parent, x, parsedLoc) != "" {
+		r.reportAs(r.build, "back", "parsed from text, then written back: location=", func(y *c02Node) string { return c02BackShape(parent, y, memo) },
+			parent, x, memo, func(y *c02Node, d bool) string { return c02ParseBack(parent, y) })
 	}
 }
 
@@ -1076,7 +1181,9 @@ func TestVerifC02(t *testing.T) {
 		structEval: newVerifRun("C02", "poly.getFeatureSequence/post/eval-structure",
 			domain("structure assembled directly as poly.Location (Complement flag = complement of that node, Join + SubLocations, leaf Start 0-based .. End exclusive, partial flags on leaves); GetSequence after AddFeature equals the independent evaluation; complement applied directly to a complement has no form in that convention and is left out; non-trivial = has an operator")),
 		build: newVerifRun("C02", "io/genbank.BuildLocationString/post/insdc",
-			domain("BuildLocationString of the same structures is accepted by the strict independent INSDC reader and denotes the same bases and the same partial ends (< and > per span); complement of complement left out as above; non-trivial = has an operator or a marker")),
+			domain("BuildLocationString of the same structures is accepted by the strict independent INSDC reader and denotes the same bases and the same partial ends (< and > per span); complement of complement left out as above; non-trivial = has an operator or a marker. "+
+				"Also, for every expression t of the domain (complement of complement included, nested joins and complements to depth 4 in the random part, every nesting of <= 3 operators in the exhaustive part), the structure parseLocation(t) written back with BuildLocationString (the tree alone, no cached text): that text must be accepted by the same reader and denote the bases and the partial ends of t (the notation may differ: a single base n may come back as n..n, complement(complement(e)) as e); evaluated where parseLocation returns; one case per expression, judged both ways; "+
+				"a failure is named like the printer's when the printer also fails on the directly assembled structure of the smallest failing part, else nested-join-written-back (a join with a join among or below its operands) or <shape>-written-back")),
 	}
 	textParents := []int{9, 99, 999, 2000}
 	r.textEval = newVerifRun("C02", "io/genbank.Parse/post/location-eval",
